@@ -178,6 +178,137 @@ def gen_dev_case(rng: Rng, max_ops: int = 14) -> dict:
     return {"family": "dev", "kind": kind, "inject": inject, "ops": ops}
 
 
+# ------------------------------------------------------------------------------------------ near-duplicate overwrites
+FIELDS = ["action", "proto", "src_ip", "src_wc", "dst_ip", "dst_wc", "src_port", "dst_port", "position"]
+_DOMAIN = {"proto": ["tcp", "udp", "icmp", "none"], "src_ip": base.ADDRS, "dst_ip": base.ADDRS, "src_wc": base.MASKS, "dst_wc": base.MASKS,
+           "src_port": base.PORTS, "dst_port": base.PORTS}
+
+
+def _ip(s: str) -> int:
+    return int(IPv4Address(s))
+
+
+def py_matches(r: dict, p: dict) -> bool:
+    """reference matcher used ONLY to aim packets (generation, never an oracle)"""
+    def addr(ip, wc, x):
+        if ip is None:
+            return True
+        if wc is None:
+            return _ip(ip) == _ip(x)
+        return (_ip(ip) & ~_ip(wc)) == (_ip(x) & ~_ip(wc))
+    if r["proto"] is not None and r["proto"] != p["proto"]:
+        return False
+    if not addr(r["src_ip"], r["src_wc"], p["src"]) or not addr(r["dst_ip"], r["dst_wc"], p["dst"]):
+        return False
+    if r["src_port"] is not None and r["src_port"] != p["sport"]:
+        return False
+    if r["dst_port"] is not None and r["dst_port"] != p["dport"]:
+        return False
+    return True
+
+
+def vary(rng: Rng, r: dict, field: str, mode: int) -> dict:
+    """a copy of r differing in exactly ONE field: mode 0 = None <-> value, mode 1/2 = another value"""
+    n = dict(r)
+    if field == "action":
+        n["action"] = "PERMIT" if r["action"] == "DENY" else "DENY"
+        return n
+    dom = [v for v in _DOMAIN[field] if v != r[field]]
+    if r[field] is None or mode != 0:
+        n[field] = dom[(mode * 3 + rng.below(len(dom))) % len(dom)]
+    else:
+        n[field] = None
+    return n
+
+
+def distinguishing_packets(rng: Rng, old: dict, new: dict, k: int = 3) -> List[dict]:
+    """packets one of the two rules matches and the other does not (as many as found, at most k), plus one both match"""
+    cands = []
+    for r in (old, new):
+        for _ in range(6):
+            cands.append(base.packet_for(rng, r))
+        # inside a masked range but not the base address itself
+        for f, pf in (("src_ip", "src"), ("dst_ip", "dst")):
+            if r[f] is not None:
+                for a in base.ADDRS + ["192.168.1.77", "192.168.200.10", "10.0.0.200"]:
+                    q = base.packet_for(rng, r)
+                    q[pf] = a
+                    cands.append(q)
+    diff = [q for q in cands if py_matches(old, q) != py_matches(new, q)]
+    both = [q for q in cands if py_matches(old, q) and py_matches(new, q)]
+    out = rng.shuffle(diff)[:k]
+    if both:
+        out.append(rng.choice(both))
+    return out or [base.gen_packet(rng)]
+
+
+def _rich_rule(rng: Rng) -> dict:
+    r = base.gen_rule(rng)
+    r["proto"] = rng.choice(["tcp", "udp", "tcp", None])
+    for f in ("src_ip", "dst_ip"):
+        if r[f] is None and rng.chance(3, 4):
+            r[f] = rng.choice(base.ADDRS)
+    for f, w in (("src_ip", "src_wc"), ("dst_ip", "dst_wc")):
+        if r[f] is None:
+            r[w] = None
+    return r
+
+
+def gen_neardup_case(k: int, rng: Rng) -> dict:
+    """Overwrite of an occupied position by a NEAR-duplicate: a rule at position p, then at p a copy differing in exactly one
+    field (k walks the 9 fields x 3 transitions x 3 surfaces x hosts), then a dump and packets the two rules treat differently;
+    finally the identical rule once more (the counter of a replaced rule starts at 0 again)."""
+    field = FIELDS[k % 9]
+    mode = (k // 9) % 3
+    surf1 = ["api", "request", "action"][(k // 27) % 3]
+    host = ["bare", "firewall", "router"][(k // 81) % 3]
+    lst = "router" if host != "firewall" else LISTS[k % 7]
+    r0 = _rich_rule(rng)
+    pos = rng.choice([0, 1, 3, 7, 20, 23])
+    ops = [{"op": "add", "list": lst, "surface": rng.choice(["api", "request", "action"]), "pos": pos, "rule": r0},
+           {"op": "check", "list": lst, "pkt": base.packet_for(rng, r0)}, {"op": "check", "list": lst, "pkt": base.packet_for(rng, r0)}]
+    if field == "position":
+        r1, pos1 = dict(r0), (pos + [1, 5, -1][mode]) % 24
+    else:
+        r1, pos1 = vary(rng, r0, field, mode), pos
+    ops.append({"op": "add", "list": lst, "surface": surf1, "pos": pos1, "rule": r1})
+    ops.append({"op": "describe", "list": lst})
+    for q in distinguishing_packets(rng, r0, r1):
+        ops.append({"op": "check", "list": lst, "pkt": q})
+    ops.append({"op": "add", "list": lst, "surface": rng.choice(["api", "request", "action"]), "pos": pos1, "rule": dict(r1)})
+    ops.append({"op": "describe", "list": lst})
+    ops.append({"op": "check", "list": lst, "pkt": base.packet_for(rng, r1)})
+    ctor = {"implicit": rng.choice(["PERMIT", "DENY"]), "max": None} if host == "bare" else None
+    return {"family": "obj", "host": host, "ctor": ctor, "preload": None, "neardup": {"field": field, "mode": mode, "surface": surf1}, "ops": ops}
+
+
+def gen_dev_neardup_case(k: int, rng: Rng) -> dict:
+    """The same on a device with real traffic: a rule about the pinging host's subnet that does not yet match the host
+    (an exact address next to it), a ping, the rule re-written at the same position with ONE field changed so that it now
+    does (or no longer does) match, a ping again, and an injected frame."""
+    kind = ["router", "firewall"][k % 2]
+    lst = "router" if kind == "router" else ["extIn", "intIn", "intOut", "extOut"][(k // 2) % 4]
+    action = "DENY" if (kind == "router" or lst.startswith("ext")) else "PERMIT"
+    r0 = {"action": action, "proto": "icmp", "src_ip": "10.0.1.77", "src_wc": None, "dst_ip": "10.0.2.2", "dst_wc": None,
+          "src_port": None, "dst_port": None}
+    variants = [("src_wc", "0.0.0.255"), ("src_ip", "10.0.1.2"), ("proto", "udp"), ("dst_wc", "0.0.255.255"), ("dst_ip", None),
+                ("action", "PERMIT" if action == "DENY" else "DENY"), ("src_ip", None), ("dst_port", 80), ("src_port", 219)]
+    f, v = variants[(k // 8) % len(variants)]
+    r1 = dict(r0)
+    r1[f] = v
+    pos = rng.choice([0, 2, 5, 21])
+    first, second = (r0, r1) if rng.chance(2, 3) else (r1, r0)
+    ops = []
+    if kind == "firewall":
+        for l in ("intIn", "intOut"):
+            ops.append({"op": "setimp", "list": l, "value": "PERMIT"})
+    ops += [{"op": "add", "list": lst, "surface": rng.choice(["api", "request", "action"]), "pos": pos, "rule": first},
+            {"op": "ping", "src": 0, "dst": 1},
+            {"op": "add", "list": lst, "surface": ["api", "request", "action"][(k // 3) % 3], "pos": pos, "rule": second},
+            {"op": "ping", "src": 0, "dst": 1}, {"op": "ping", "src": 1, "dst": 0}]
+    return {"family": "dev", "kind": kind, "inject": False, "neardup": {"field": f}, "ops": ops}
+
+
 # ------------------------------------------------------------------------------------------ shared helpers
 def frame_view(frame) -> dict:
     from primaite.simulator.network.protocols.arp import ARPPacket
